@@ -152,6 +152,12 @@ def check(ctx):
             bsl = arg_origins(c, 1)
             fresh = [x for x in bsl.calls if (x.name or "").rsplit("::", 1)[-1] in ("new", "with_capacity", "clear", "truncate", "default") and x.bb in scc]
             ctx.require(R3, bool(fresh), c.where(), "the read buffer is created or cleared for every root file", [GC, "shared-read-buffer"])
+        # ... and read WHOLE: nothing between the open and the read limits how much of the file is seen (`take(n)`, a fixed-size `read`,
+        # `read_exact`) — a root file with a text dump or a comment header before its PEM block is a valid root file
+        for c in [x for x in gb.calls_to("std::io::Read::read_to_end", "std::io::Read::read_to_string") if x.bb in scc]:
+            rsl = arg_origins(c, 0)
+            limited = sorted(v for v in rsl.via if v.rsplit("::", 1)[-1] in ("take", "read_exact", "chunks", "split_at", "truncate"))
+            ctx.require(R3, not limited, c.where(), "the root file is read to its end (%s)" % limited, [GC, "bounded-read"])
         for a in adds:
             ctx.require(R3, a.bb in scc, a.where(), "add_root_certificate is called for each file", [GC, "add-in-loop"])
             sl = arg_origins(a, 1)
